@@ -69,7 +69,7 @@ def base_scenario(case) -> dict:
     prog = make_program(case)
     rng = random.Random(case.get("prog_seed", 0) * 7919 + 13)
     sc = {"prog": prog, "seed": case.get("prog_seed", 0), "world": case.get("world") or default_world(prog, rng, det=case.get("det", False))}
-    for k in ("pages", "latency_ms", "opts", "holds", "faults", "max_inv", "input"):
+    for k in ("pages", "latency_ms", "opts", "holds", "faults", "max_inv", "input", "expect", "bad_event", "bad_input", "max_raises"):
         if k in case:
             sc[k] = copy.deepcopy(case[k])
     return sc
